@@ -15,8 +15,8 @@ LEVEL = "model_checking"
 MENU_DENSE_Q = [(None, 0.0), (0.0, 0.0), (U, 0.0), (0.5 * U, 0.0), (None, 4 * U),
                 (None, 6 * U), (1.5 * U, 8 * U), (None, 12 * U)]
 MENU_BOUNDED_Q = [(None, 0.0), (U, 0.0), (None, 6 * U), (2 * U, 12 * U)]
-MENU_T = [(mt, m) for mt in (None, 0.0, 0.5 * U, U, 1.5 * U, 2 * U, 3 * U, 9 * U)
-          for m in (0.0, 2 * U, 4 * U, 6 * U, 8 * U, 12 * U, 16 * U, 40 * U)]
+MENU_T = [(mt, m) for mt in (None, 0.0, 0.5 * U, U, 2 * U, 9 * U)
+          for m in (0.0, 4 * U, 6 * U, 8 * U, 12 * U, 40 * U)]
 
 
 def plan(tier):
@@ -24,7 +24,8 @@ def plan(tier):
         specs = [([("dense", 1, 5)], MENU_DENSE_Q), ([("bounded", 3, 6, 8)], MENU_BOUNDED_Q),
                  ([("near", 2, 3)], MENU_BOUNDED_Q + [(2.0 ** -30, 0.0), (None, 2.0 ** -28)])]
     else:
-        specs = [([("dense", 1, 7)], MENU_T), ([("bounded", 4, 8, 10)], MENU_T),
+        specs = [([("dense", 1, 6)], MENU_T), ([("dense", 7, 7)], MENU_DENSE_Q),
+                 ([("bounded", 3, 8, 10)], MENU_DENSE_Q + MENU_BOUNDED_Q[2:]),
                  ([("near", 2, 4)], MENU_BOUNDED_Q + [(2.0 ** -30, 0.0), (None, 2.0 ** -28)])]
     tasks, descs = [], []
     for regimes, menu in specs:
